@@ -271,6 +271,11 @@ func makeScenario(rng *rand.Rand, idx int, thorough bool) *scenario {
 			// a protected file whose name is another protected file's name plus a temporary-file / backup suffix
 			name = sc.names[i-1] + []string{".tmp", "~", ".bak", ".new", ".part"}[rng.Intn(5)]
 		}
+		if _, dup := sc.prot[name]; dup {
+			// the recovery set is a SET of files: the same name twice would hand Create the same input twice
+			// (observation O1 of DESIGN.md, outside every listed property)
+			name = fmt.Sprintf("f%02d.dat", i)
+		}
 		n := pickSize(rng, sc.s, big)
 		if sc.s >= 65536 {
 			n = []int{1, sc.s - 1, sc.s, sc.s + 1, 2*sc.s + 5, 70000}[rng.Intn(6)]
